@@ -1,20 +1,35 @@
 (* C17 driver: scenario = list of ops; see checks/C17.py / harness/C17.cpp for the token grammar *)
 let string_of_int_hex i = Printf.sprintf "%x" i
-let stmt c =
+let kind_tok t = if int_tok t = 0 then KPlain else KSetPtr
+let act_of k c =
+  match k with
+  | ":ai" -> let n = n_tok (next c) in Some (AInstall (n, kind_tok (next c)))
+  | ":ar" -> Some (ARemove (n_tok (next c)))
+  | ":ae" -> Some (AEnable (nat_tok (next c)))
+  | ":ad" -> Some (ADisable (nat_tok (next c)))
+  | ":az" -> Some AReset
+  | _ -> None
+let act c = let k = next c in match act_of k c with Some a -> a | None -> raise (Bad ("action " ^ k))
+let xstmt c =
   match next c with
-  | ":set" -> let l = nat_tok (next c) in SSet (l, n_tok (next c))
-  | ":wr" -> let l = nat_tok (next c) in SWrite (l, n_tok (next c))
-  | ":fail" | ":failc" | ":thr" | ":thrstd" -> SAbort
-  | t -> raise (Bad ("statement " ^ t))
+  | ":set" -> let l = nat_tok (next c) in XS (SSet (l, n_tok (next c)))
+  | ":wr" -> let l = nat_tok (next c) in XS (SWrite (l, n_tok (next c)))
+  | ":fail" | ":failc" | ":thr" | ":thrstd" -> XS SAbort
+  | k -> (match act_of k c with Some a -> XA a | None -> raise (Bad ("statement " ^ k)))
+let xtest c =
+  let a = counted c xstmt in let b = counted c xstmt in let d = counted c xstmt in
+  { x_setup = a; x_body = b; x_teardown = d }
 let op c =
   match next c with
-  | ":inst" -> let n = n_tok (next c) in OInstall (n, (if int_tok (next c) = 0 then KPlain else KSetPtr))
+  | ":inst" -> let n = n_tok (next c) in OInstall (n, kind_tok (next c))
+  | ":act" -> let n = n_tok (next c) in let post = int_tok (next c) <> 0 in OActor (n, post, counted c act)
   | ":en" -> OEnable (nat_tok (next c))
   | ":dis" -> ODisable (nat_tok (next c))
   | ":rm" -> ORemove (n_tok (next c))
   | ":reset" -> OReset
-  | ":test" -> let a = counted c stmt in let b = counted c stmt in let d = counted c stmt in
-               OTest { t_setup = a; t_body = b; t_teardown = d }
+  | ":test" -> OTest (xtest c)
+  | ":run" -> ORun (counted c xtest)
+  | ":runner" -> let rep = nat_tok (next c) in ORunner (rep, counted c xtest)
   | t -> raise (Bad ("op " ^ t))
 let scenario ts = let c = { rest = ts } in let rec go acc = if at_end c then List.rev acc else go (op c :: acc) in go []
 let pitem = function
@@ -24,7 +39,7 @@ let pitem = function
   | IChain ids -> String.concat " " ([":c"; string_of_int_hex (List.length ids)] @ List.map pnat ids)
 let run_line ts =
   let s = scenario ts in
-  if not (valid s) then raise (Bad "scenario is not valid (UT_PTR_SET without an enabled SetPointerPlugin, or location/value out of range)")
+  if not (valid s) then raise (Bad "scenario is not valid (UT_PTR_SET without a pointer plugin that stays, an acting plugin named by another action, location/value out of range, ...)")
   else match run s with [] -> ":none" | l -> String.concat " " (List.map pitem l)
 let item c =
   match next c with
